@@ -112,7 +112,8 @@ impl<'a> G<'a> {
     }
     fn inst_msg(&mut self) -> Msg {
         let code_id = self.some_id();
-        let label = if self.rng.chance(1, 12) { "" } else { *self.rng.pick(&["L", "label two"]) };
+        // labels are recorded exactly as supplied: also whitespace-padded and whitespace-only ones (not empty => accepted)
+        let label = if self.rng.chance(1, 12) { "" } else { *self.rng.pick(&["L", "label two", " padded ", " ", "L", "\tx\n"]) };
         let admin = match self.rng.below(3) {
             0 => None,
             1 => Some(self.some_user()),
